@@ -110,6 +110,7 @@ func (c *Ctx) mayStoreField(fn *ssa.Function, owner, name string) bool {
 func (c *Ctx) analyseRegulation() *regulation {
 	tb := ir.NewTB(c.P.IsRepoFunc, c.P.FuncKey)
 	tb.NoInline = func(f *ssa.Function) bool { return load_FuncPkgPath(f) != PkgCtrl }
+	tb.ParamCallers = c.StaticCallers
 	r := &regulation{c: c, tb: tb}
 	r.writers = c.findWriters(tb)
 	for _, ufs := range c.ImplMethods(PkgCtrl, "FanController", "UpdateFanSpeed") {
